@@ -47,7 +47,7 @@ let views t s l addrs = String.concat " " (List.map (fun a -> let (b, e) = view 
 
 let handle_tx secs =
   match secs with
-  | [ envs; txs; cls; cis; accs; obs; vaddrs ] ->
+  | envs :: txs :: cls :: cis :: accs :: obs :: vaddrs :: extra ->
     let e = match envs with
       | [t; s; num; gal; gl; bf; bgp; ratio; benef; itv] ->
         { e_time = z t; e_stop = z s; e_number = z num; e_galactica = z gal; e_gas_limit = z gl; e_base_fee = zopt bf;
@@ -76,20 +76,44 @@ let handle_tx secs =
       { cr_left = l; cr_refund = r; cr_err = er;
         cr_state = (apply_ops e.e_time e.e_stop (fst st) ops, snd st); cr_out = i } in
     let tail l = zs l.l_add ^ " " ^ zs l.l_sub in
-    (match exec_tx oracle log_credit e tx ci (led, []) with
-     | Failed (er, st) ->
-       "F " ^ err_name er ^ " | " ^ views e.e_time e.e_stop (fst st) vaddrs ^ " | " ^ tail (fst st)
-     | Done (st, rc) ->
-       String.concat " " [ "D"; zs rc.r_gas_used; zs rc.r_paid; zs rc.r_reward; tok_of_bool rc.r_reverted;
+    let show_done tag st rc =
+       String.concat " " [ tag; zs rc.r_gas_used; zs rc.r_paid; zs rc.r_reward; tok_of_bool rc.r_reverted;
                            string_of_int (List.length rc.r_outputs); zs rc.r_payer; zs rc.r_price;
                            (match rc.r_credit with Some c -> zs c | None -> "-"); "|" ]
        ^ " " ^ String.concat " " (List.map (fun ((g, u), r) -> zs g ^ " " ^ zs u ^ " " ^ zs r) rc.r_clause_log)
-       ^ " | " ^ views e.e_time e.e_stop (fst st) vaddrs ^ " | " ^ tail (fst st))
+       ^ " | " ^ views e.e_time e.e_stop (fst st) vaddrs ^ " | " ^ tail (fst st) in
+    (match extra with
+     | [] ->
+       (match exec_tx oracle log_credit e tx ci (led, []) with
+        | Failed (er, st) ->
+          "F " ^ err_name er ^ " | " ^ views e.e_time e.e_stop (fst st) vaddrs ^ " | " ^ tail (fst st)
+        | Done (st, rc) -> show_done "D" st rc)
+     | [ flow; ais ] ->
+       (* AD: packer Flow.Adopt in full.  flow = blocklist minprio used (id reverted)* ; ai = oblk dblk featok tagok exp id dep|- chainhas chaindep(-|0|1) *)
+       let (fe, fs) = match flow with
+         | bl :: mp :: used :: rest ->
+           let rec pr = function i :: r :: t -> (z i, bool_of_tok r) :: pr t | [] -> [] | _ -> failwith "bad processed list" in
+           ({ fe_blocklist = z bl; fe_min_prio = z mp }, { fs_used = z used; fs_processed = pr rest })
+         | _ -> failwith "bad flow section" in
+       let ai = match ais with
+         | [ob; db; fo; tg; ex; id; dep; ch; cd] ->
+           { ai_origin_blocked = bool_of_tok ob; ai_delegator_blocked = bool_of_tok db; ai_features_ok = bool_of_tok fo;
+             ai_chain_tag_ok = bool_of_tok tg; ai_expiration = z ex; ai_id = z id; ai_depends_on = zopt dep;
+             ai_chain_has_tx = bool_of_tok ch; ai_chain_dep = (if cd = "-" then None else Some (bool_of_tok cd)) }
+         | _ -> failwith "bad adopt-in section" in
+       (match adopt_full oracle log_credit e fe fs tx ai ci (led, []) with
+        | FRejected (c, st) ->
+          "R " ^ (match c with AcBadTx -> "bad-tx" | AcNotAdoptableNow -> "not-adoptable-now" | AcGasLimitReached -> "gas-limit-reached"
+                              | AcKnownTx -> "known-tx" | AcNotAdoptableForever -> "not-adoptable-forever" | AcOtherError -> "other")
+          ^ " | " ^ views e.e_time e.e_stop (fst st) vaddrs ^ " | " ^ tail (fst st)
+        | FAdopted (st, rc, fs') -> show_done "A" st rc ^ " | " ^ zs fs'.fs_used)
+     | _ -> failwith "bad trailing sections")
   | _ -> failwith "bad TX line"
 
 let handle line =
   match split_on "|" (split_ws line) with
   | [ "TX" ] :: rest -> handle_tx rest
+  | [ "AD" ] :: rest -> handle_tx rest
   | [ [ "BF"; gal; pnum; gl; gu; pb ] ] ->
     (match calc_base_fee (z gal) (z pnum) (z gl) (z gu) (z pb) with
      | BfNone -> "none" | BfFee x -> "fee " ^ zs x | BfPanics -> "panic")
